@@ -189,6 +189,9 @@ func ParseJWT(tokenString string, f PublicKeyFunc, options ...jwt.ParseOption) (
 	if !jwx.IsAlgorithmSupported(alg) {
 		return nil, fmt.Errorf("token signing algorithm is not supported: %s", alg)
 	}
+	if err := jwx.ValidateAlgorithmForKey(alg, key); err != nil {
+		return nil, err
+	}
 
 	options = append(options, jwt.WithKey(alg, key))
 	options = append(options, jwt.WithVerify(true))
@@ -225,6 +228,9 @@ func ParseJWS(token []byte, f PublicKeyFunc) (payload []byte, err error) {
 		kid := signature.ProtectedHeaders().KeyID()
 		key, err := f(kid)
 		if err != nil {
+			return nil, err
+		}
+		if err := jwx.ValidateAlgorithmForKey(alg, key); err != nil {
 			return nil, err
 		}
 		// This seems an awkward way of appending 3 arrays.
